@@ -407,7 +407,7 @@ theorem hok_step (L : Limits) (s : Svc) (op : Op) (ok : HeapOk s.heap) : HeapOk 
           · exact ok
           · exact heapPush_ok _ _ ok
   | cancel id => simp only [step, cancel, cancelWith]; split <;> exact ok
-  | collect now =>
+  | collect now ax =>
     simp only [step, collect]
     split
     · exact ok
